@@ -41,10 +41,14 @@ SERS = {
     "wrap": lambda v: [v],
     "pair": lambda v: {"v": v},
     "repr": lambda v: repr(v),
+    # outputs that compare EQUAL to their input but differ in type: the output is what must be delivered
+    "tofloat": lambda v: float(v) if (type(v) is int and abs(v) < 2**53) else [v],
+    "tobool": lambda v: bool(v) if type(v) is int and v in (0, 1) else [v],
+    "toint": lambda v: int(v) if type(v) is bool else [v],
 }
-NON_IDEMPOTENT = {"wrap", "pair", "repr", "str"}
+NON_IDEMPOTENT = {"wrap", "pair", "repr", "str", "tofloat", "tobool", "toint"}
 KINDS = ["msg_nocontext", "msg_in_action", "action_start", "action_success", "action_failure", "as_task_start", "write_serializer",
-         "write_plain", "msg_call_write"]
+         "write_plain", "msg_call_write", "msg_write_action"]
 
 
 def plan(tier, seed):
@@ -158,7 +162,9 @@ def one(seed, i, has_globals, gfields, res, templates=()):
     # any Exception subclass may come out of a serializer, including ones that iteration protocols treat specially
     state["exc_class"] = rng.choice([excs.SerFault, StopIteration, StopAsyncIteration, KeyError, IndexError, ValueError, TypeError, RuntimeError,
                                      AssertionError, AttributeError, LookupError, ArithmeticError, excs.BadStr, RecursionError, NotImplementedError])
-    values = {k: gen.gen_value(rng, rng.choice([0, 1, 2])) for k in keys}
+    values = {k: (rng.choice([0, 1, True, False, 7, -3]) if (sers[k] in ("tofloat", "tobool", "toint") and rng.random() < 0.7)
+                  else gen.gen_value(rng, rng.choice([0, 1, 2]))) for k in keys}
+    explicit_action = False
     extra = {}
     if rng.random() < 0.4:
         extra = {"undeclared_" + str(j): gen.gen_value(rng, 1) for j in range(rng.randint(1, 2))}
@@ -195,6 +201,18 @@ def one(seed, i, has_globals, gfields, res, templates=()):
                     before_len[0] = len(tape.entries)
                     tpl_type(tpl, "message")(**supplied).write()
             ctx = outer
+            target = lambda m: m.get("message_type") == mt
+        elif kind == "msg_write_action":
+            # the message is handed to an explicit action (which is not the current one)
+            import warnings
+            with warnings.catch_warnings():
+                warnings.simplefilter("ignore")
+                with start_action(action_type="outer") as outer:
+                    with start_action(action_type="inner"):
+                        before_len[0] = len(tape.entries)
+                        tpl_type(tpl, "message")(**supplied).write(action=outer)
+            ctx = None
+            explicit_action = True
             target = lambda m: m.get("message_type") == mt
         elif kind == "msg_in_action":
             with start_action(action_type="outer") as outer:
@@ -309,7 +327,13 @@ def one(seed, i, has_globals, gfields, res, templates=()):
             ident = mt if "msg" in kind or "write" in kind else at
             if not isinstance(rendering, str) or ident not in rendering:
                 problems.append("serialization_failure does not describe the message: %r" % (rendering,))
-            if ctx is None:
+            if explicit_action:
+                # reports go to the action current at the call ('inner'), the message itself belongs to 'outer'
+                inner = [m for m in msgs if m.get("action_type") == "inner" and m.get("action_status") == "started"]
+                for r in (tb, sf):
+                    if not inner or r["task_uuid"] != inner[0]["task_uuid"] or r["task_level"][:-1] != inner[0]["task_level"][:-1]:
+                        problems.append("report for a message written to an explicit action is not in the context current at the call")
+            elif ctx is None:
                 for r in (tb, sf):
                     if r["task_level"] != [1]:
                         problems.append("report logged without a current action is not its own one-message task: %r" % (r["task_level"],))
